@@ -33,7 +33,7 @@ def run(chk) -> None:
     )
     chk.trusted = ["CPython ast", "functools.cached_property writes only its own slot", "external calls (pulp, graphviz, re) do not mutate BpSeq state"]
     chk.assumptions = ["callers outside the library do not mutate returned containers"]
-    chk.robust |= {"receiver-write", "cache-introspection", "pk-class", "isolated-select", "isolated-unpair", "isolated-copy", "foreign-write", "derived-sequence", "history-independent"}
+    chk.robust |= {"receiver-write", "cache-introspection", "pk-class", "isolated-select", "isolated-unpair", "isolated-copy", "foreign-write", "derived-sequence", "history-independent", "derived-consistent", "isolated-result"}
     check_effects(chk)
     # the removal rules, the "sequence unchanged" clause and call histories: evaluated (checks/c01e.py); pinned forms as the fallback
     from checks import c01e
